@@ -96,8 +96,6 @@ def particle_swarm(
 
     if initial_positions is not None:
         for pos in initial_positions:
-            if len(positions) >= n_particles:
-                break
             positions.append(clip(list(pos)))
             vel = [(hi - lo) * (rng.random() - 0.5) * 0.1 for lo, hi in bounds]
             velocities.append(clip_velocity(vel))
@@ -111,6 +109,13 @@ def particle_swarm(
 
     # Evaluate initial positions
     fitness = [evaluate(pos) for pos in positions]
+
+    if len(positions) > n_particles:
+        # More warm-start positions than particles: every one of them was evaluated, the best n_particles stay
+        keep = sorted(range(len(positions)), key=lambda i: fitness[i])[:n_particles]
+        positions = [positions[i] for i in keep]
+        velocities = [velocities[i] for i in keep]
+        fitness = [fitness[i] for i in keep]
 
     # Personal best for each particle
     p_best = [pos[:] for pos in positions]
